@@ -35,6 +35,13 @@ if mods:
         'LbzVerif.Props.C11.Compress.conservation',
         'LbzVerif.Props.C11.Compress.order',
         'LbzVerif.Props.C11.Expand.order',
+        'LbzVerif.Props.C11.Expand.progress',
+        'LbzVerif.Props.C11.Expand.unord_q_capacity',
+        'LbzVerif.Props.C11.Expand.order_q_capacity',
+        'LbzVerif.Props.C11.Expand.conservation',
+        'LbzVerif.Props.C11.Expand.capacity',
+        'LbzVerif.Props.C11.Expand.attach_in_range',
+        'LbzVerif.Props.C11.Expand.no_unord_leak',
     ])
 exe = ck.build_lbzip2(asan=False, ndebug=False)
 rng = ck.rng
